@@ -526,3 +526,91 @@ func fetchItemRequested(options *imap.FetchOptions, numKind imapwire.NumKind, s 
 //@ func (c *Client) readResponse() (err error)
 //@   props C17:callsite
 //@   callsite Client.upgradeStartTLS requires __called("Client.readResponseTagged") && !__called("Client.readResponseData") && !__called("Client.readResponse") && !__calledPrefix("Reader.")
+
+// ---------------------------------------------------------------------------
+// C12: routing predicates of further untagged responses - each closure handed
+// to findPendingCmdFunc accepts exactly the pending commands the response can
+// belong to.
+
+// LIST data goes to a pending LIST, or to a pending SELECT of that very mailbox
+// that has not yet received its LIST data (RFC 9051 SELECT returns LIST).
+//
+//@ pure
+func listGoesTo(cmd command, mailbox string) bool {
+	switch cmd := cmd.(type) {
+	case *ListCommand:
+		return true
+	case *SelectCommand:
+		return cmd.mailbox == mailbox && cmd.data.List == nil
+	}
+	return false
+}
+
+//@ pure
+func selectNonNil(cmd command) bool {
+	if s, ok := cmd.(*SelectCommand); ok {
+		return s != nil
+	}
+	return true
+}
+
+//@ closure 0 of func (c *Client) handleList() (err error)
+//@   props C12:post,pre@call
+//@   params (cmd command)
+//@   captures (data *imap.ListData)
+//@   results (result bool)
+//@   requires data != nil && selectNonNil(cmd)
+//@   ensures result == listGoesTo(cmd, data.Mailbox)
+
+// An ESEARCH response goes to a pending SEARCH: the one bearing the tag the
+// response names, or any when it names none.
+//
+//@ pure
+func esearchGoesTo(cmd command, tag string) bool {
+	if s, ok := cmd.(*SearchCommand); ok {
+		return tag == "" || s.tag == tag
+	}
+	return false
+}
+
+//@ pure
+func searchNonNil(cmd command) bool {
+	if s, ok := cmd.(*SearchCommand); ok {
+		return s != nil
+	}
+	return true
+}
+
+//@ closure 0 of func (c *Client) handleESearch() (err error)
+//@   props C12:post,pre@call
+//@   params (anyCmd command)
+//@   captures (tag string)
+//@   results (result bool)
+//@   requires searchNonNil(anyCmd)
+//@   ensures result == esearchGoesTo(anyCmd, tag)
+
+// A QUOTAROOT response goes to the pending GETQUOTAROOT for that mailbox.
+//
+//@ pure
+func quotaRootGoesTo(cmd command, mailbox string) bool {
+	if q, ok := cmd.(*GetQuotaRootCommand); ok {
+		return q.mailbox == mailbox
+	}
+	return false
+}
+
+//@ pure
+func quotaRootNonNil(cmd command) bool {
+	if q, ok := cmd.(*GetQuotaRootCommand); ok {
+		return q != nil
+	}
+	return true
+}
+
+//@ closure 0 of func (c *Client) handleQuotaRoot() (err error)
+//@   props C12:post,pre@call
+//@   params (anyCmd command)
+//@   captures (mailbox string)
+//@   results (result bool)
+//@   requires quotaRootNonNil(anyCmd)
+//@   ensures result == quotaRootGoesTo(anyCmd, mailbox)
